@@ -42,6 +42,20 @@ RunRecord run_driver(const sim::Json& scenario);
 void fill_result(const RunRecord& rec, sim::RunResult& r);
 void dump_record(const RunRecord& rec);
 
+// Short, stable constraint type label for signatures ("LinConEQ", "Cond", "Indicator", "SOS1Constraint", ...)
+inline std::string short_type(const std::string& t) {
+  auto rhs = [&](const std::string& s) {
+    if (s.find("Range") != std::string::npos) return std::string("Range");
+    size_t p = s.find("Rhs");
+    return p == std::string::npos ? std::string() : s.substr(p + 3, 2);
+  };
+  if (t.compare(0, 11, "Conditional") == 0) return "Cond";
+  if (t.compare(0, 19, "IndicatorConstraint") == 0) return "Indicator";
+  if (t.compare(0, 19, "AlgebraicConstraint") == 0)
+    return std::string(t.find("Quad") != std::string::npos ? "QuadCon" : "LinCon") + rhs(t);
+  return t.substr(0, 40);
+}
+
 // Property plug-ins
 struct Property {
   const char* id;
